@@ -1,4 +1,5 @@
 import BddVerif.Props.C11
+import BddVerif.Lemmas.AlgoEqUtilSpec
 #print axioms B.Props.C11.none_on_false
 #print axioms B.Props.C11.witness_sat
 #print axioms B.Props.C11.first_valuation_least
@@ -15,3 +16,8 @@ import BddVerif.Props.C11
 #print axioms B.Props.C11.necessary_clause_exact
 #print axioms B.Props.C11.is_clause_spec
 #print axioms B.Props.C11.is_valuation_spec
+#print axioms B.AlgoEqUtil.Bdd_sat_witness_spec
+#print axioms B.AlgoEqUtil.Bdd_is_clause_spec
+#print axioms B.AlgoEqUtil.Bdd_is_valuation_spec
+#print axioms B.AlgoEqUtil.Bdd_is_clause_eq_model_driver
+#print axioms B.AlgoEqUtil.Bdd_is_valuation_eq_model_driver
